@@ -33,6 +33,7 @@ def run(ctx: Ctx):
     ctx.attempt(step_guard, ctx)
     ctx.attempt(no_globals, ctx)
     ctx.attempt(controller_order, ctx)
+    ctx.attempt(wiring, ctx)
     ctx.floor("WMC", 3)
     ctx.floor("ORD.driver", 4)
     ctx.not_decided += ["equality of states/events of differently split runs as observed behaviour (follows from the decided clauses + C16)"]
@@ -233,6 +234,58 @@ def controller_order(ctx: Ctx):
             return "payload helper passing the caller's tuple"
         return None
     rules.rule_callers(ctx, "D2", "update_instruction_generators", uig_caller, "the generator set is rebuilt only from an explicitly ordered tuple", 1)
+
+
+CONFIG_WIRING = {  # SimulationState field <- the configuration entry the runner's own loop uses
+    "sim_time": "config.sim.start_time",
+    "sim_timestep_duration_seconds": "config.sim.timestep_duration_seconds",
+}
+
+
+def wiring(ctx: Ctx):
+    """The clock the state ticks by and the clock the runner counts by are the same two configuration entries: every
+    construction of the initial SimulationState passes start_time and timestep_duration_seconds from the configuration
+    (a field left to its default silently decouples tick() from the runner's range()). The controller of a running
+    payload is only ever modified in place: Update.build (which re-reads the input files from their first row) is called
+    from the loading code only, and the payload operations replace nothing but `step_update`."""
+    from ..index import index, in_pkg
+    repo = ctx.repo
+    idx = index(repo)
+    sites = [s for s in idx.calls("SimulationState", refs=False) if in_pkg(s) and s.file.startswith("nrel/hive/initialization")]
+    ctx.require(len(sites) >= 3, f"only {len(sites)} constructions of the initial SimulationState found")
+    for s in sites:
+        kw = {k.arg: flow.dump(k.value) for k in s.node.keywords if k.arg}
+        for fld, want in CONFIG_WIRING.items():
+            got = kw.get(fld)
+            ctx.check(got is not None and got.endswith(want), "D1", "DU.config-wiring", f"{s.qual}: SimulationState({fld}=...) comes from {want}", s.func, s.node,
+                      why_bad=(f"{fld} is not passed: the state keeps the class default while the runner counts steps by {want}" if got is None else f"{fld}={got}"),
+                      construct=f"{s.qual}:SimulationState:{fld}")
+
+    def ok_build(st):
+        f = st.func
+        if f is not None and f.relpath.startswith("nrel/hive/initialization/"):
+            return "loading code"
+        return None
+    rules.rule_callers(ctx, "D2", "build", ok_build, "Update.build is called only while loading a scenario", 2,
+                       skip=lambda st: not (isinstance(st.node, ast.Call) and isinstance(st.node.func, ast.Attribute) and flow.dump(st.node.func.value) == "Update"))
+    RPO = "nrel/hive/runner/runner_payload_ops.py"
+    n = 0
+    for f in repo.module(RPO).funcs.values():
+        for p in flow.paths(f.node):
+            if p.kind != "return" or p.value is None:
+                continue
+            for c in ast.walk(p.value):
+                if isinstance(c, ast.Call) and isinstance(c.func, ast.Attribute) and c.func.attr == "_replace":
+                    for k in c.keywords:
+                        if k.arg == "u":
+                            n += 1
+                            v = k.value
+                            rp = f.params[0]
+                            good = isinstance(v, ast.Call) and isinstance(v.func, ast.Attribute) and v.func.attr == "_replace" and flow.dump(v.func.value) == f"{rp}.u" \
+                                and {kk.arg for kk in v.keywords} <= {"step_update"}
+                            ctx.check(good, "D2", "DU.threading", f"{f.qualname}: the payload's Update is replaced only in its step_update (the pre-step readers keep their position)", f, c,
+                                      why_bad=f"u = {flow.dump(v)[:160]}", construct=f"{f.qualname}:update-replaced")
+    ctx.require(n >= 1, "runner_payload_ops: no function replacing the payload's Update found")
 
 
 def selftest():
